@@ -143,13 +143,20 @@ func c09Check(c C09Case, cx *h.Ctx) *h.Failure {
 	desc := func() string {
 		return fmt.Sprintf("\nA = %s\nB = %s", clip(c.A.String(), 500), clip(c.B.String(), 500))
 	}
-	mag := 1.0
-	for _, g := range []exact.Geom{ea, eb} {
-		for _, v := range g.Vertices() {
-			x, y := v.Floats()
-			mag = math.Max(mag, math.Max(math.Abs(x), math.Abs(y)))
+	magOf := func(gs ...exact.Geom) float64 {
+		m := 0.0
+		for _, g := range gs {
+			for _, v := range g.Vertices() {
+				x, y := v.Floats()
+				m = math.Max(m, math.Max(math.Abs(x), math.Abs(y)))
+			}
 		}
+		if m == 0 {
+			m = 1
+		}
+		return m
 	}
+	mag := magOf(ea, eb)
 	tau := 1e-9 * mag
 	gotI := geom.Intersects(A, B)
 	if gotI != geom.Intersects(B, A) {
@@ -221,7 +228,7 @@ func c09Check(c C09Case, cx *h.Ctx) *h.Failure {
 		if !ec.IsEmpty() {
 			dac, _ := geom.Distance(A, C)
 			dbc, _ := geom.Distance(B, C)
-			if dac > d+geomDiameter(eb)+dbc+tau {
+			if dac > d+geomDiameter(eb)+dbc+1e-9*magOf(ea, eb, ec) {
 				return h.Failf("distance/triangle", "d(A,C)=%g > d(A,B)=%g + diam(B)=%g + d(B,C)=%g%s\nC = %s", dac, d, geomDiameter(eb), dbc, desc(), c.C)
 			}
 		}
